@@ -34,6 +34,37 @@ macro_rules! misc_types_digest {
         let br: &u32 = f.borrow();
         let ar: &u32 = f.as_ref();
         let _ = write!(s, "{}{}{}{}{:?}{};", hash(&f) == hash(&g), hash(&f) == hash(&b), br, ar, f, format!("{:p}", f) == format!("{:p}", $rc::as_ptr(&f)));
+        // equality and ordering are the payload's, also through two handles to ONE allocation
+        // (no pointer-identity shortcut unless T: Eq): NaN, and a payload that counts the calls
+        let nan: $rc<f64> = $rc::new(f64::NAN);
+        let nan2 = nan.clone();
+        let _ = write!(s, "{}{}{}{}{:?}{}{};", nan == nan2, nan != nan2, nan == nan, nan != nan, nan.partial_cmp(&nan2), nan < nan2, nan >= nan2);
+        static EQC: std::sync::atomic::AtomicU32 = std::sync::atomic::AtomicU32::new(0);
+        static NEC: std::sync::atomic::AtomicU32 = std::sync::atomic::AtomicU32::new(0);
+        struct Odd;
+        impl PartialEq for Odd {
+            fn eq(&self, _: &Odd) -> bool {
+                EQC.fetch_add(1, std::sync::atomic::Ordering::Relaxed);
+                false
+            }
+            #[allow(clippy::partialeq_ne_impl)]
+            fn ne(&self, _: &Odd) -> bool {
+                NEC.fetch_add(1, std::sync::atomic::Ordering::Relaxed);
+                false
+            }
+        }
+        let o1: $rc<Odd> = $rc::new(Odd);
+        let o2 = o1.clone();
+        let o3: $rc<Odd> = $rc::new(Odd);
+        let r = (o1 == o2, o1 != o2, o1 == o3, o1 != o3, o1 == o1);
+        let _ = write!(s, "{:?}{}{};", r, EQC.load(std::sync::atomic::Ordering::Relaxed), NEC.load(std::sync::atomic::Ordering::Relaxed));
+        // the caller's format options reach the payload
+        let fl: $rc<f64> = $rc::new(3.14159);
+        let neg: $rc<i32> = $rc::new(-42);
+        let st: $rc<String> = $rc::new(String::from("ab"));
+        let _ = write!(s, "{:>6}|{:<6}|{:^6}|{:06}|{:+}|{:*>5}|{:.2}|{:9.3}|{:+.1}|{:5}|{:>4}|{:.1};", f, f, f, f, f, f, fl, fl, fl, neg, st, st);
+        let _ = write!(s, "{:#?}|{:#x?}|{:08?}|{:?}|{:6?}|{:#?};", big, f, f, st, neg, (f.clone(), st.clone()));
+        let _ = write!(s, "{};", format!("{:24p}", f) == format!("{:24p}", $rc::as_ptr(&f)));
         // raw round trips and counts on every payload shape
         macro_rules! rt {
             ($h:expr) => {{
